@@ -427,8 +427,12 @@ func c13(p *core.Program, r *core.Report) {
 	r.Rule(r4, "every non-empty make([]float64, n) in the hull code is completely overwritten from input coordinates before use: it is the target of a store indexed by an element counter bounded by its own length, or by base+k with a stride-stepped loop covering [0, len) - zero-initialised slots must never be read as coordinates (they would add the point (0,0) to the hull)", 2)
 	all := strideInfo(p)
 	for _, fn := range pkgFuncs(p, "xy") {
-		if !strings.Contains(short(fn), "convexHullCalculator") {
-			continue
+		root := fn
+		for root.Parent() != nil {
+			root = root.Parent()
+		}
+		if !strings.Contains(short(fn), "convexHullCalculator") && !inFile(p, root, "xy", "convex_hull.go") {
+			continue // the hull code: the calculator's methods and whatever else its file declares
 		}
 		si := all[fn]
 		for _, b := range fn.Blocks {
